@@ -62,6 +62,11 @@ def gen(ctx):
                 out.append((True, b"", ch * (n + extra)))
                 out.append((True, b"x" * (total - n * width), ch * n))
                 out.append((False, b"", ch * (n + extra)))
+    # keys that start with (or equal) the prefix: the prefix must still be added
+    for pfx in (b"ns:", b"p", b"user:"):
+        for k in (pfx, pfx + b"x", pfx + pfx, pfx.decode(), pfx.decode() + "42", b"x" + pfx):
+            for au in (False, True):
+                out.append((au, pfx, k))
     # prefixes that are themselves illegal / whitespace, empty keys
     for pfx in (b"", b" ", b"a b", b"\x00", b"ok:"):
         for k in (b"", "", b"k", "k", b" ", " ", b"\r\n", "\t\n"):
@@ -155,6 +160,54 @@ def main(argv):
                                   dict(case, who=who, got=None if got is None else hx(got), want=None if want is None else hx(want)), tags=tags)
         lines.append(f"checkkey au={int(au)} pfx={hx(pfx)} k={key_tok(key)}")
         reals.append((case, "ok " + hx(r_helper[1]) if r_helper[0] == "ok" else "err IllegalInput" if r_helper[0] == "illegal" else "exc " + str(r_helper[1])))
+    # ---- the same rule on every key-addressed command of every class, also with ignore_exc ------------------------
+    commands = {
+        "get": lambda o, k: o.get(k), "gets": lambda o, k: o.gets(k), "gat": lambda o, k: o.gat(k, 30), "gats": lambda o, k: o.gats(k, 30),
+        "set": lambda o, k: o.set(k, b"v", noreply=True), "add": lambda o, k: o.add(k, b"v", noreply=True), "replace": lambda o, k: o.replace(k, b"v", noreply=True),
+        "append": lambda o, k: o.append(k, b"v", noreply=True), "prepend": lambda o, k: o.prepend(k, b"v", noreply=True), "cas": lambda o, k: o.cas(k, b"v", b"1", noreply=True),
+        "delete": lambda o, k: o.delete(k, noreply=True), "incr": lambda o, k: o.incr(k, 1, noreply=True), "decr": lambda o, k: o.decr(k, 1, noreply=True),
+        "touch": lambda o, k: o.touch(k, 10, noreply=True), "get_many": lambda o, k: o.get_many([k]), "gets_many": lambda o, k: o.gets_many([k]),
+        "set_many": lambda o, k: o.set_many({k: b"v"}, noreply=True), "delete_many": lambda o, k: o.delete_many([k], noreply=True),
+    }
+    sample = [b"k", "k", b"two words", "tab\tkey", b"nul\x00", b"k" * 250, b"k" * 251, "é", b"ns:already", b"ns:", "x" * 247, "x" * 248, b"\r\n", b"a\nb"]
+    for pfx in (b"", b"ns:"):
+        for au in (False, True):
+            for ign in (False, True):
+                for cls in ("Client", "PooledClient", "HashClient"):
+                    for cname, fn in commands.items():
+                        for key in sample:
+                            world.conns.clear()
+                            world.tag = ("cmd", cname)
+                            kw = dict(allow_unicode_keys=au, key_prefix=pfx, socket_module=sm, ignore_exc=ign)
+                            try:
+                                obj = {"Client": lambda: Client(("h", 1), **kw), "PooledClient": lambda: PooledClient(("h", 1), **kw),
+                                       "HashClient": lambda: HashClient([("h", 1)], **kw)}[cls]()
+                                fn(obj, key)
+                                outcome = "ok"
+                            except MemcacheIllegalInputError:
+                                outcome = "illegal"
+                            except Exception as e:
+                                outcome = "exc:" + type(e).__name__
+                            sent = b"".join(d for c in world.conns for _, d in c.sent)
+                            want = legal(au, pfx, key)
+                            case = {"class": cls, "command": cname, "au": au, "prefix": hx(pfx), "key": key_tok(key), "ignore_exc": ign, "outcome": outcome, "sent": hx(sent[:80])}
+                            ctx.case(("cmd", cls, cname, au, pfx, key, ign), nontrivial=True)
+                            ctx.count("all-commands")
+                            tags = [cls, "command:" + cname] + (["ignore_exc"] if ign else [])
+                            if want is None or want == b"":
+                                if want == b"":
+                                    continue           # empty wire form: outside the property
+                                if sent:
+                                    ctx.violation("an illegal key was transmitted", case, tags=tags + ["sent-on-reject"])
+                                elif outcome != "illegal":
+                                    ctx.violation("an illegal key was not rejected with MemcacheIllegalInputError", case, tags=tags + ["not-rejected"])
+                            else:
+                                toks = sent.split(b"\r\n")[0].split(b" ")
+                                # the key is the first token that is not the verb or (for gat/gats) the exptime
+                                wire_key = toks[2] if cname in ("gat", "gats") and len(toks) > 2 else (toks[1] if len(toks) > 1 else None)
+                                if outcome == "illegal" or wire_key != want:
+                                    ctx.violation("a legal key was rejected or not transmitted as exactly prefix + encoded key",
+                                                  dict(case, wire_key=None if wire_key is None else hx(wire_key), want=hx(want)), tags=tags + ["wire-key"])
     if ctx.lean.build_ok:
         for (case, real), m in zip(reals, ctx.driver.batch(lines)):
             if m != real:
